@@ -982,6 +982,8 @@ func runGoReuse(c *Case, tr *Trace) {
 		// sub.via: the value travels through an encoder and the format's parser (member names then arrive by
 		// reference); sub.keycache: the optional key cache is on, in the reused and in the fresh unfolder alike
 		via, _ := c.Sub["via"].(string)
+		sharedbuf, _ := c.Sub["sharedbuf"].(bool)
+		sharedIn := make([]byte, 4096)
 		kc, haskc := c.Sub["keycache"].(float64)
 		if haskc {
 			un.EnableKeyCache(int(kc))
@@ -997,7 +999,12 @@ func runGoReuse(c *Case, tr *Trace) {
 				if err := gotype.Fold(val, api.newVisitor(sk, Opts{IgnoreInvalidFloat: true}), userFolders); err != nil {
 					return describe(q.Elem()), err
 				}
-				err := api.parse(exact(sk.all), u)
+				in := exact(sk.all)
+				if sharedbuf && len(sk.all) <= len(sharedIn) {
+					// the caller reads every document into ONE input buffer
+					in = sharedIn[:copy(sharedIn, sk.all)]
+				}
+				err := api.parse(in, u)
 				return describe(q.Elem()), err
 			}
 			err := gotype.Fold(val, u, userFolders)
